@@ -139,45 +139,88 @@ def rule_sql(program, ctx):
                 continue
             # delete by id read from an author-constrained SELECT
             okid = False
-            for cj in conj:
-                if isinstance(cj, ast.Compare) and ast.unparse(cj.left).endswith(".c.id") and isinstance(cj.ops[0], ast.Eq) and isinstance(cj.comparators[0], ast.Name):
-                    var = cj.comparators[0].id
-                    srcs = stores_of(fn, var)
-                    from_rows = True
-                    for d in srcs:
-                        v = d.value if isinstance(d, ast.Assign) else None
-                        if isinstance(v, ast.Constant) and v.value is None:
+
+            def from_rows(name, seen=()):
+                """every binding of `name` is a row (element) of `result`"""
+                if name in seen:
+                    return True
+                seen = seen + (name,)
+                binds = stores_of(fn, name)
+                if not binds:
+                    return False
+                okb = True
+                for d in binds:
+                    if isinstance(d, ast.For):
+                        it = d.iter
+                        if dotted(it) == "result":
                             continue
-                        if isinstance(v, ast.Name) or isinstance(v, ast.Subscript):
-                            base = v.id if isinstance(v, ast.Name) else dotted(v.value)
-                            # bound by iterating / first() of `result`
-                            feeds = False
-                            for a in ancestors(d):
-                                if isinstance(a, ast.For) and dotted(a.iter) == "result" and base in {n.id for n in ast.walk(a.target) if isinstance(n, ast.Name)}:
-                                    feeds = True
-                            for d2 in stores_of(fn, base):
-                                if isinstance(d2, ast.Assign) and isinstance(d2.value, ast.Call) and dotted(d2.value.func) == "result.first":
-                                    feeds = True
-                            if not feeds:
-                                from_rows = False
-                        else:
-                            from_rows = False
-                    # `result` comes from executing a select with the pubkey conjunct
-                    sel_ok = False
-                    for d in stores_of(fn, "result"):
-                        if isinstance(d, ast.Assign) and isinstance(strip_await(d.value), ast.Call) and call_name(strip_await(d.value)).endswith(".execute"):
-                            arg = strip_await(d.value).args[0]
-                            for e2 in (exprs.get(arg.id, []) if isinstance(arg, ast.Name) else [arg]):
-                                w2 = []
-                                for sub in ast.walk(e2):
-                                    if isinstance(sub, ast.Call) and isinstance(sub.func, ast.Attribute) and sub.func.attr == "where":
-                                        w2 += list(sub.args)
-                                cj2 = []
-                                for w in w2:
-                                    cj2 += _conjuncts(w)
-                                if "select" in ast.unparse(e2) and _pubkey_conj(cj2) and not any(isinstance(n, ast.BinOp) and isinstance(n.op, ast.BitOr) for w in w2 for n in ast.walk(w)):
-                                    sel_ok = True
-                    okid = from_rows and sel_ok and bool(srcs)
+                        if isinstance(it, ast.Name):
+                            okb = okb and elems_from_rows(it.id, seen)
+                            continue
+                        return False
+                    v = d.value if isinstance(d, ast.Assign) else None
+                    if isinstance(v, ast.Constant) and v.value is None:
+                        continue
+                    if isinstance(v, ast.Call) and dotted(v.func) == "result.first":
+                        continue
+                    if isinstance(v, ast.Name):
+                        okb = okb and from_rows(v.id, seen)
+                        continue
+                    if isinstance(v, ast.Subscript) and isinstance(v.value, ast.Name):
+                        okb = okb and from_rows(v.value.id, seen)
+                        continue
+                    return False
+                return okb
+
+            def elems_from_rows(lname, seen):
+                srcs = []
+                for d in stores_of(fn, lname):
+                    v = d.value if isinstance(d, ast.Assign) else None
+                    if isinstance(v, ast.List) and not v.elts:
+                        continue
+                    if isinstance(v, (ast.ListComp, ast.SetComp)) and len(v.generators) == 1 and dotted(v.generators[0].iter) == "result" and not v.generators[0].ifs:
+                        e = v.elt
+                        tgt = v.generators[0].target
+                        if (isinstance(e, ast.Subscript) and isinstance(tgt, ast.Name) and dotted(e.value) == tgt.id) or (isinstance(e, ast.Name) and e.id in {n.id for n in ast.walk(tgt) if isinstance(n, ast.Name)}):
+                            continue
+                    return False
+                for cc in walk_no_nested(fn):
+                    if isinstance(cc, ast.Call) and isinstance(cc.func, ast.Attribute) and cc.func.attr in ("append", "add") and dotted(cc.func.value) == lname:
+                        a = cc.args[0]
+                        if isinstance(a, ast.Name) and from_rows(a.id, seen):
+                            continue
+                        if isinstance(a, ast.Subscript) and isinstance(a.value, ast.Name) and from_rows(a.value.id, seen):
+                            continue
+                        return False
+                    if isinstance(cc, ast.Call) and isinstance(cc.func, ast.Attribute) and cc.func.attr in ("extend", "update", "insert") and dotted(cc.func.value) == lname:
+                        return False
+                return True
+
+            for cj in conj:
+                idvar = None
+                if isinstance(cj, ast.Compare) and ast.unparse(cj.left).endswith(".c.id") and isinstance(cj.ops[0], ast.Eq) and isinstance(cj.comparators[0], ast.Name):
+                    idvar = ("scalar", cj.comparators[0].id)
+                if isinstance(cj, ast.Call) and ast.unparse(cj.func).endswith(".c.id.in_") and cj.args and isinstance(cj.args[0], ast.Name):
+                    idvar = ("list", cj.args[0].id)
+                if idvar is None:
+                    continue
+                rows_ok = from_rows(idvar[1]) if idvar[0] == "scalar" else elems_from_rows(idvar[1], ())
+                # `result` comes from executing a select with the pubkey conjunct
+                sel_ok = False
+                for d in stores_of(fn, "result"):
+                    if isinstance(d, ast.Assign) and isinstance(strip_await(d.value), ast.Call) and call_name(strip_await(d.value)).endswith(".execute"):
+                        arg = strip_await(d.value).args[0]
+                        for e2 in (exprs.get(arg.id, []) if isinstance(arg, ast.Name) else [arg]):
+                            w2 = []
+                            for sub in ast.walk(e2):
+                                if isinstance(sub, ast.Call) and isinstance(sub.func, ast.Attribute) and sub.func.attr == "where":
+                                    w2 += list(sub.args)
+                            cj2 = []
+                            for w in w2:
+                                cj2 += _conjuncts(w)
+                            if "select" in ast.unparse(e2) and _pubkey_conj(cj2) and not any(isinstance(n, ast.BinOp) and isinstance(n.op, ast.BitOr) for w in w2 for n in ast.walk(w)):
+                                sel_ok = True
+                okid = rows_ok and sel_ok and len(conj) == 1
             if okid:
                 ctx.ok(rid, c, f"DBStorage.{q}: DELETE by id read from a SELECT … WHERE pubkey == event.pubkey")
             else:
